@@ -3,12 +3,13 @@ import Driver.Cfi
 import Driver.Adt
 import Driver.Abi
 import Driver.IRJson
+import Driver.Intervals
 
 /-! One JSON request per input line, one JSON answer per output line. -/
 open Lean Driver
 
 def handlers : List (String → Json → Option (Except String Json)) :=
-  [Driver.Dwarf.handle, Driver.Cfi.handle, Driver.Adt.handle, Driver.Abi.handle, Driver.Abi.handleCall, Driver.IRJson.handle, Driver.IRJson.handleListing]
+  [Driver.Dwarf.handle, Driver.Cfi.handle, Driver.Adt.handle, Driver.Abi.handle, Driver.Abi.handleCall, Driver.IRJson.handle, Driver.IRJson.handleListing, Driver.Intervals.handle]
 
 def dispatch (line : String) : Json :=
   match Json.parse line with
